@@ -12,7 +12,7 @@ use serde_json::{Value, json};
 use sozu_command_lib::{
     logging::parse_logging_spec,
     proto::command::{
-        PathRuleKind, QueryClustersHashes, RequestHttpFrontend, ResponseStatus, ReturnListenSockets, RulePosition,
+        ListenerType, PathRuleKind, QueryClustersHashes, RequestHttpFrontend, ResponseStatus, ReturnListenSockets, RulePosition,
         Status, WorkerResponse, request::RequestType, response_content::ContentType,
     },
     state::ConfigState,
@@ -164,6 +164,12 @@ fn liveness_probe(kind: LK, addr: SocketAddr, wait: Duration) -> Probe {
     }
 }
 
+/// the socket with which the harness occupies a listener address
+enum Holder {
+    Tcp(#[allow(dead_code)] std::net::TcpListener),
+    Udp(#[allow(dead_code)] std::net::UdpSocket),
+}
+
 /// what the probe of an active listener established
 enum Live {
     Served,
@@ -190,6 +196,8 @@ struct Run<'p> {
     padded: HashMap<u64, String>,
     /// Status round trip measured on this cell at start: every wait is at least a multiple of it
     base: Duration,
+    /// listener addresses whose activation was refused while the harness held the address
+    refused_while_occupied: BTreeSet<SocketAddr>,
 }
 
 
@@ -428,11 +436,26 @@ impl<'p> Run<'p> {
                 return;
             }
             let cmd = &self.plan.cmds[idx];
+            // fault class "address occupied at activation time": hold the address ourselves
+            // (plain bind, no SO_REUSEPORT) while the worker handles the ActivateListener
+            let mut holder: Option<Holder> = None;
+            if cmd.occupy {
+                if let RequestType::ActivateListener(a) = &cmd.rt {
+                    let addr: SocketAddr = a.address.into();
+                    holder = if a.proxy == ListenerType::Udp as i32 {
+                        std::net::UdpSocket::bind(addr).ok().map(Holder::Udp)
+                    } else {
+                        std::net::TcpListener::bind(addr).ok().map(Holder::Tcp)
+                    };
+                    self.out.o(if holder.is_some() { "activation_fault/address_held_by_the_harness" } else { "activation_fault/address_could_not_be_held" }, 1);
+                }
+            }
+            let held = holder.is_some();
             if let Some(id) = self.send_one(idx) {
                 pending.push((idx, id));
                 burst_len += 1;
             }
-            if cmd.flush || idx + 1 == n {
+            if cmd.flush || cmd.occupy || cmd.verify || idx + 1 == n {
                 if self.plan.burst && burst_len > 1 {
                     self.out.o("bursts", 1);
                     self.out.o("burst_commands", burst_len);
@@ -457,6 +480,12 @@ impl<'p> Run<'p> {
                 if self.dead {
                     return;
                 }
+                drop(holder);
+                if cmd.occupy || cmd.verify {
+                    if let Some((_, id)) = pending.last().filter(|(i, _)| *i == idx).cloned() {
+                        self.activation_fault_step(idx, &id, held);
+                    }
+                }
                 let needs_scm = pending.iter().any(|(i, _)| match &self.plan.cmds[*i].rt {
                     RequestType::DeactivateListener(d) => d.to_scm,
                     RequestType::ReturnListenSockets(_) => true,
@@ -476,6 +505,73 @@ impl<'p> Run<'p> {
                 }
                 pending.clear();
             }
+        }
+    }
+
+    /// the two steps of the "address occupied at activation time" fault class
+    fn activation_fault_step(&mut self, idx: usize, id: &str, held: bool) {
+        let cmd = &self.plan.cmds[idx];
+        let RequestType::ActivateListener(a) = &cmd.rt else { return };
+        let addr: SocketAddr = a.address.into();
+        let proto = match ListenerType::try_from(a.proxy) {
+            Ok(ListenerType::Http) => "http",
+            Ok(ListenerType::Https) => "https",
+            Ok(ListenerType::Tcp) => "tcp",
+            Ok(ListenerType::Udp) => "udp",
+            Err(_) => return,
+        };
+        let status = self.sent.get(id).and_then(|s| s.status).map(status_name).unwrap_or("?");
+        if cmd.occupy {
+            if !held {
+                return;
+            }
+            self.out.o(&format!("activation_fault/{proto}/first_activation_answered_{status}"), 1);
+            if status == "failure" {
+                self.refused_while_occupied.insert(addr);
+            }
+            return;
+        }
+        // the retry, after the address was released
+        if !self.refused_while_occupied.contains(&addr) {
+            return;
+        }
+        self.out.o(&format!("activation_fault/{proto}/retry_answered_{status}"), 1);
+        let witness = |this: &Self| json!({"listener": format!(":{}", addr.port()), "kind": proto, "command_index": idx,
+            "commands_for_this_listener": this.listener_history(addr), "focus": {"ports": [addr.port()]}});
+        match status {
+            "ok" => {
+                // logical evidence: the answer says the listener is bound; the kernel says whether it is
+                let listening = if proto == "udp" {
+                    match net::udp_socket_is_ours(addr) {
+                        Some(true) => Some(true),
+                        Some(false) => None, // somebody else's socket: no verdict
+                        None => Some(false),
+                    }
+                } else {
+                    match net::can_connect(addr) {
+                        Ok(_) => Some(true),
+                        Err(Probe::Refused(_)) => Some(false),
+                        Err(_) => None,
+                    }
+                };
+                match listening {
+                    Some(true) => self.out.o("activation_fault/listening_after_ok_retry", 1),
+                    Some(false) => {
+                        let w = witness(self);
+                        self.out.v(&format!("worker/listener_not_listening_after_ok_activation/{proto}/retry_after_bind_failure"),
+                            format!("{proto} listener :{}: ActivateListener was refused while the address was held by another socket; after the address was released the same ActivateListener is answered OK, but {}", addr.port(),
+                                if proto == "udp" { "no UDP socket of this process is bound to the address" } else { "connections to the address are refused (nothing listens)" }),
+                            w);
+                    }
+                    None => self.out.inconclusive.push("activation retry: could not tell whether the address is listening".to_owned()),
+                }
+            }
+            "failure" => {
+                let w = witness(self);
+                self.out.v(&format!("worker/activation_retry_refused_after_bind_failure/{proto}"),
+                    format!("{proto} listener :{}: the activation failed while the address was occupied; the address is free again but the retry is refused as well", addr.port()), w);
+            }
+            _ => {}
         }
     }
 
@@ -824,7 +920,12 @@ impl<'p> Run<'p> {
                         let add = self.last_listener_add(addr).map(|x| x.1);
                         let act = self.last_forwarded(|rt| matches!(rt, RequestType::ActivateListener(a) if SocketAddr::from(a.address) == addr)).map(|x| x.1);
                         let cause = if add == Some("failure") { "/add_answered_failure" } else if act == Some("failure") { "/activate_answered_failure" } else { "" };
-                        self.out.v(&format!("worker/active_listener_refuses_connections/{k}{cause}"),
+                        let sig = if self.refused_while_occupied.contains(&addr) && act == Some("ok") {
+                            format!("worker/listener_not_listening_after_ok_activation/{k}/retry_after_bind_failure")
+                        } else {
+                            format!("worker/active_listener_refuses_connections/{k}{cause}")
+                        };
+                        self.out.v(&sig,
                             format!("{k} listener :{port} is active in the main process's view but connect() is refused: {e}"),
                             json!({"listener": format!(":{port}"), "kind": k, "commands_for_this_listener": hist, "focus": focus}));
                     }
@@ -1458,7 +1559,7 @@ pub fn run_plan(plan: &Plan) -> Outcome {
         opts.max_command_buffer_size = 131_072;
     }
     let w = Worker::start(opts);
-    let mut run = Run { plan, w, out: Outcome::default(), reference: ConfigState::new(), sent: HashMap::new(), forwarded: Vec::new(), prev_dump: None, dead: false, clusters_missing_backends: BTreeSet::new(), padded: HashMap::new(), base: Duration::from_millis(1) };
+    let mut run = Run { plan, w, out: Outcome::default(), reference: ConfigState::new(), sent: HashMap::new(), forwarded: Vec::new(), prev_dump: None, dead: false, clusters_missing_backends: BTreeSet::new(), padded: HashMap::new(), base: Duration::from_millis(1), refused_while_occupied: BTreeSet::new() };
     run.out.o(if plan.raw { "sequences/raw" } else { "sequences/master_filtered" }, 1);
     run.out.o(if plan.burst { "sequences/bursts" } else { "sequences/one_at_a_time" }, 1);
     if plan.small_buffers {
